@@ -131,7 +131,8 @@ def random_poll(rng, n_events, seg=1500, first_id=1, timeouts=TIMEOUTS, bursts=T
         via_default = (to == 0 and rng.random() < 0.3)
         cmd = {"op": "new", "id": iid, "k": "poll", "to": to, "via": "default" if via_default else "new"}
         r = rng.random()
-        if to < 0 and r < 0.5:
+        if to < -1 or (to < 0 and r < 0.5):
+            cmd["to"] = -1
             cmd["toh"] = -rng.choice([40, 50, 61, 62, 63])      # Duration::from_secs(1 << k): effectively infinite
         elif to == 1 and r < 0.5:
             cmd["toh"] = rng.choice([1, 3, 5])                    # 0.5, 1.5, 2.5 ms: not a whole number of ms
@@ -367,8 +368,8 @@ def twin_reset(rng, kind, n_runs, to=0, base_id=300, prefix=8, suffix=14):
             out.append({"op": "eq", "id": a, "b": b, "xe": True, "xp": "C17"})
             ops([a, b], rng.randrange(2, suffix + 1), "C17")
         else:
-            out.append({"op": "copy", "id": a, "to2": c})
-            out.append({"op": "copy", "id": a, "to2": d})
+            out.append({"op": "copy", "id": a, "to2": c, "via": rng.choice(["copy", "clone"])})
+            out.append({"op": "copy", "id": a, "to2": d, "via": rng.choice(["copy", "clone"])})
             ops([c], rng.randrange(1, suffix + 1), "C17")      # only the copy moves
             out.append({"op": "eq", "id": a, "b": d, "xe": True, "xp": "C17"})
             ops([a, d], rng.randrange(2, suffix + 1), "C17")   # original and untouched copy agree
@@ -614,4 +615,199 @@ def reset_after_selection(rng, kind, to, step, base_id=700):
                             out.append({"op": "feed", "id": a, "m": [176 + ch, 6, rval(rng)]})
                             out.append({"op": "feed", "id": a, "m": [176 + ch, 38, rval(rng)]})
                         after(ch, 0)
+    return out
+
+
+# ----------------------------------------------------------------------------- long runs (counters, ages)
+
+def run_lengths(thorough=False):
+    """Lengths of a run of identical calls: every small length (thresholds), windows below the powers of
+    two at which 8- and 16-bit counters wrap, and a few large ones (any 'older than T' rule with T
+    below the largest length shows there)."""
+    ns = set(range(1, 41)) | {63, 64, 65, 100, 127, 128, 129, 511, 512, 513, 1000, 1023, 1024, 1025,
+                              4095, 4096, 4097, 10000}
+    ns |= set(range(216, 260))
+    if thorough:
+        ns |= set(range(65536 - 40, 65536 + 3)) | {32767, 32768, 32769, 100000, 131072}
+    else:
+        ns |= {65504, 65510, 65520, 65530, 65534, 65535, 65536, 65537}
+    return sorted(ns)
+
+
+def long_runs(rng, kind, to, thorough=False, base_id=800, fillers=None, lengths=None):
+    """A scanner holds partial progress (prefix), then the same call is made n times (`rep`), then the
+    construct is completed (suffix).  A twin scanner that is spared the run shows what must come out:
+      other-channel / system traffic, polls of other channels ... twin = prefix + suffix  (C15)
+      same-channel non-contributing traffic ...................... twin = prefix + suffix  (C16)
+      resets ....................................................... twin = a new scanner   (C17)
+      repeats of the last prefix message: no twin, the monitors of the scanner's own properties judge."""
+    out = []
+    a, b = base_id, base_id + 1
+    lengths = lengths or run_lengths(thorough)
+    ch = rng.choice([0, 3, 9, 15])
+    oc = (ch + 1 + rng.randrange(15)) % 16
+    if kind == "cc14":
+        cn = rng.randrange(32)
+        scen = [([[176 + ch, cn, 100]], [[176 + ch, cn + 32, 3], [176 + ch, cn + 32, 4]])]
+        fill = {"other": [176 + oc, cn, 9], "other-lsb": [176 + oc, cn + 32, 9], "noncontrib": [144 + ch, 60, 1],
+                "noncontrib-cc": [176 + ch, 64 + rng.randrange(64), 1], "system": [248, 0, 0], "sysex": [240, 5, 5]}
+    else:
+        x, y = [176 + ch, 99, 3], [176 + ch, 98, 37]
+        scen = [([x, y, [176 + ch, 38, 24]], [[176 + ch, 6, 117], [176 + ch, 38, 25]]),
+                ([x, y], [[176 + ch, 6, 99], [176 + ch, 96, 1]]),
+                ([x, y, [176 + ch, 6, 50]], [[176 + ch, 38, 7], [176 + ch, 97, 2]])]
+        fill = {"other": [176 + oc, 6, 5], "other-num": [176 + oc, 99, 5], "noncontrib": [144 + ch, 60, 1],
+                "noncontrib-cc": [176 + ch, rng.choice([5, 7, 37, 39, 95, 102, 120, 121, 123]), rng.choice([0, 1, 127])],
+                "system": [248, 0, 0], "sysex": [240, 6, 5]}
+    names = fillers or (list(fill) + ["reset", "repeat"] + (["poll-other", "poll-same"] if kind == "poll" else []))
+    for pre, post in scen:
+        for name in names:
+            for n in lengths:
+                if n > 5000 and name in ("other-lsb", "other-num", "sysex", "noncontrib-cc") and not thorough:
+                    continue
+                if name == "repeat" and kind == "poll" and pre[-1][1] == 38:
+                    continue        # a further LSB undoes the previous one: repeating it is not a no-op
+                twp = {"reset": "C17", "repeat": None, "noncontrib": "C16", "noncontrib-cc": "C16", "system": "C16",
+                       "sysex": "C16", "poll-same": None}.get(name, "C15")
+                out.append({"op": "new", "id": a, "k": kind, "to": to, "via": rng.choice(["new", "new", "default"]) if to == 0 else "new"})
+                if twp:
+                    out.append({"op": "new", "id": b, "k": kind, "to": to})
+                for m in pre:
+                    out.append({"op": "feed", "id": a, "m": m})
+                    if twp and twp != "C17":
+                        out.append({"op": "feed", "id": b, "m": m, "tw": 1, "twp": twp})
+                if name == "reset":
+                    inner = {"op": "reset", "id": a}
+                elif name == "repeat":
+                    inner = {"op": "feed", "id": a, "m": pre[-1]}
+                elif name == "poll-other":
+                    inner = {"op": "poll", "id": a, "ch": oc}
+                elif name == "poll-same":
+                    inner = {"op": "poll", "id": a, "ch": ch}       # no time has passed: early for every timeout > 0
+                else:
+                    inner = {"op": "feed", "id": a, "m": fill[name]}
+                out.append({"op": "rep", "n": n, "cmd": inner})
+                for m in post:
+                    out.append({"op": "feed", "id": a, "m": m})
+                    if twp:
+                        out.append({"op": "feed", "id": b, "m": m, "tw": 1, "twp": twp})
+                if kind == "poll":
+                    out.append({"op": "tick", "id": -1, "dt": max(to, 0) + 1})
+                    out.append({"op": "poll", "id": a, "ch": ch})
+                    if twp:
+                        out.append({"op": "poll", "id": b, "ch": ch, "tw": 1, "twp": twp})
+                # ... and a real encoding is still inverted afterwards (C07 / C10 / C12)
+                if kind == "cc14":
+                    out.append({"op": "enc14", "id": a, "msg": [ch, rng.choice([cn, rng.randrange(32)]), rng.randrange(16384)]})
+                elif kind == "pn":
+                    m = rand_pn_msg(rng)
+                    m[0] = ch
+                    out.append({"op": "encpn", "id": a, "msg": m, "ord": "lsb"})
+                else:
+                    m = rand_pn_msg(rng)
+                    m[0] = ch
+                    ord_ = rng.choice(["msb", "lsb"])
+                    nbytes = 4 if m[4] == 1 else 3
+                    out.append({"op": "encpn", "id": a, "msg": m, "ord": ord_, "gk": "rtp", "more": 1})
+                    out.append({"op": "tick", "id": a, "dt": max(to, 0) + 1})
+                    out.append({"op": "poll", "id": a, "ch": ch,
+                                "grp": {"k": "rtp", "i": nbytes + 1, "n": nbytes + 1, "msg": m, "ord": ord_}})
+    return out
+
+
+# ----------------------------------------------------------------------------- far-away times
+
+SPEC_TICK_CAP = 10_000_000      # harness/src/sut.rs: what the specification sees of one time step (ms)
+
+# clock readings (ms) at which a narrower representation of time would wrap or saturate
+TIME_BOUNDARIES = [4294, 4295, 65535, 65536, 2147483, 2147484, 4294967, 4294968, 16777216,
+                   2**31, 2**32, 2**32 + 1000, 9223372036854, 9223372036855, 18446744073709, 18446744073710,
+                   2**53, 2**63 // 1000, 2**63, 2**64 - 10**6]
+
+
+def tick(iid, dt):
+    """A time step; steps beyond the cap carry the real amount as a decimal string."""
+    if dt > SPEC_TICK_CAP:
+        return {"op": "tick", "id": iid, "dt": SPEC_TICK_CAP, "dtx": str(dt)}
+    return {"op": "tick", "id": iid, "dt": dt}
+
+
+def far_times(rng, n_segments, seg=120, first_id=950, timeouts=(1, 5, 10, 1000), bursts=False):
+    """The polling scanner long after its creation / first use: random traffic whose clock crosses a
+    boundary at which 16/32/64-bit counts of ns, us or ms wrap.  The specification sees the same history
+    with every step capped (it only compares differences with the timeout)."""
+    out = []
+    iid = first_id
+    for s in range(n_segments):
+        to = rng.choice(timeouts)
+        w = rng.choice(TIME_BOUNDARIES)
+        start = rng.choice([0, 0, w - rng.choice([1, 2, to, to + 1, 3 * to])]) if w < 2**63 else 0
+        start = max(start, 0)
+        cmd = {"op": "new", "id": iid, "k": "poll", "to": to}
+        if start:
+            cmd.update({"now": min(start, SPEC_TICK_CAP), "nowx": str(start)})
+        out.append(cmd)
+        chans = pick_chans(rng)
+        tr = Traffic(rng, "poll", chans)
+        # first use at the start, so that an epoch taken lazily is `start`
+        for _ in range(rng.randrange(4)):
+            out.append({"op": "feed", "id": iid, "m": tr.msg()})
+        if rng.random() < 0.5:
+            c = rng.choice(chans)
+            out += [{"op": "feed", "id": iid, "m": [176 + c, 99, 3]}, {"op": "feed", "id": iid, "m": [176 + c, 98, 37]}]
+        # jump to just before the boundary (measured from 0 or from `start`)
+        target = w if start == 0 or rng.random() < 0.5 else start + w
+        target = min(target, 2**64 - 10**5)
+        gap = target - start - rng.choice([0, 1, 2, to, to + 1, 2 * to + 1, 50])
+        if gap > 0:
+            out.append(tick(iid, gap))
+        for _ in range(seg):
+            r = rng.random()
+            if r < 0.55:
+                out.append({"op": "feed", "id": iid, "m": tr.msg(), "f": impl(rng)})
+            elif r < 0.75:
+                out.append({"op": "poll", "id": iid, "ch": rng.choice(chans)})
+            else:
+                out.append(tick(iid, rng.choice([0, 1, 1, 2, to - 1 if to > 1 else 1, to, to + 1, 2 * to, 7])))
+    return out
+
+
+def far_times_twin(rng, n_segments, base_id=970, timeouts=(1, 5, 10)):
+    """C15 at far-away times: one channel holds a pending value across a clock boundary while another
+    channel is fed; the per-channel scanners see only their own channel."""
+    out = []
+    for s in range(n_segments):
+        to = rng.choice(timeouts)
+        w = rng.choice(TIME_BOUNDARIES[:14])
+        a, b = rng.sample(range(16), 2)
+        ids = {a: base_id + 1, b: base_id + 2}
+        for i in (base_id, base_id + 1, base_id + 2):
+            out.append({"op": "new", "id": i, "k": "poll", "to": to})
+
+        def feed(m):
+            out.append({"op": "feed", "id": base_id, "m": m})
+            out.append({"op": "feed", "id": ids[m[0] % 16], "m": m, "tw": 1, "twp": "C15"})
+
+        def poll(c):
+            out.append({"op": "poll", "id": base_id, "ch": c})
+            out.append({"op": "poll", "id": ids[c], "ch": c, "tw": 1, "twp": "C15"})
+
+        for m in ([176 + a, 99, 3], [176 + a, 98, 37], [176 + a, 6, 1]):
+            feed(m)
+        out.append(tick(-1, to + 1))
+        poll(a)
+        if rng.random() < 0.5:
+            for m in ([176 + b, 99, 4], [176 + b, 98, 38]):
+                feed(m)
+        d1 = rng.choice([1, 2, to - 1 if to > 1 else 1, to, 8])
+        out.append(tick(-1, max(w - (to + 1) - d1, 1)))
+        feed([176 + a, 6, 126])                       # pending on a, shortly before the boundary
+        out.append(tick(-1, d1 + rng.choice([0, 1, 2, 8])))
+        feed([176 + b, rng.choice([6, 99, 98, 38, 96]), 5])      # b is fed after the boundary
+        out.append(tick(-1, rng.choice([0, 1, to, to + 1, 12])))
+        poll(a)
+        poll(b)
+        out.append(tick(-1, to + 1))
+        poll(a)
+        poll(b)
     return out
